@@ -140,6 +140,7 @@ func valuePool() []gval {
 		rInt(tyUint64, 1<<53, uint64(1<<53)), rInt(tyUint64, 65536, uint64(65536)), rInt(tyMyInt, -7, MyInt(-7)),
 		rF64(tyMyF64, 0.1, MyF64(0.1)), rF64(tyFloat64, 1e300, 1e300), rF64(tyFloat64, 5e-324, 5e-324), rF64(tyFloat64, 0.1, 0.1),
 		notAny(rComp(tyIntSlice, false, []int(nil))), // marshals as JSON null (finding K10)
+		rInt(tyUint8, 0, uint8(0)), rInt(tyUint64, 0, uint64(0)), rInt(tyInt8, 0, int8(0)),
 	}
 }
 
